@@ -267,7 +267,18 @@ def f41():
     return True if tuple(c.knotvector) == (0.0, 1.0) else tuple(c.knotvector)
 
 
-for name, fn in (("F36", f36), ("F37", f37), ("F38", f38), ("F39", f39), ("F40", f40), ("F41", f41)):
+def f42():
+    """C17 / C08: union of knot vectors of different degrees; A + B raised, A / B was wrong before d7b0e30"""
+    A = Curve([F(0), F(0), F(1, 2), F(1), F(1)], [F(0), F(1), F(0)])
+    B = Curve([F(0)] * 3 + [F(1)] * 3, [F(1), F(3), F(2)])
+    if tuple(A.knotvector | B.knotvector) != (0, 0, 0, F(1, 2), F(1, 2), 1, 1, 1):
+        return tuple(A.knotvector | B.knotvector)
+    S, Q = A + B, A / B
+    bad = [u for u in (F(0), F(1, 4), F(1, 2), F(3, 4), F(1)) if S(u) != A(u) + B(u) or Q(u) != A(u) / B(u)]
+    return True if not bad else f"wrong at {bad}"
+
+
+for name, fn in (("F36", f36), ("F37", f37), ("F38", f38), ("F39", f39), ("F40", f40), ("F41", f41), ("F42", f42)):
     if len(sys.argv) > 1 and name not in sys.argv[1:]:
         continue
     t(name, fn)
